@@ -1212,6 +1212,10 @@ class MyPyAstVisitor:
 
         parent = self.__declaration_stack[-1]
 
+        if isinstance(parent, Enum):
+            # Functions of enums are not part of the stubs and enums have no publicity information
+            return not is_internal(name)
+
         if not isinstance(parent, Module | Class) and not (isinstance(parent, Function) and parent.name == "__init__"):
             raise TypeError(
                 f"Expected parent for {name} in module {self.mypy_file.fullname} to be a class or a module.",
